@@ -68,6 +68,10 @@ def _dump_yaml_fromdict(data, fp, multidoc=False) -> None:
         yaml.allow_unicode = False
         # Keep dict insertion order, thank you very much!
         yaml.sort_base_mapping_type_on_output = False
+        # Don't wrap long lines: the emitter may break a flow collection in
+        # the middle of a multi-word plain scalar (e.g. a metadata key), and
+        # the result then no longer parses.
+        yaml.width = 2**31 - 1
         if multidoc:
             yaml.explicit_start = True
             yaml.explicit_end = True
